@@ -20,7 +20,8 @@ SHARD_DEADLINE = {'quick': 300, 'thorough': 3300}
 
 def floors(tier):
     f = {'distinct_nontrivial': 6000 if tier == 'quick' else 100000, 'identity_ip_sp_lc_rc': 800, 'identity_cp_acp_gp': 800,
-         'permuted_order_cases': 500, 'swapped_pair_followups': 300, 'high_grade_blade_cases': 100, 'wrapper_configured_cases': 500, 'reflected_entry_point_cases': 100, 'graded_mode_cases': 200}
+         'permuted_order_cases': 500, 'swapped_pair_followups': 300, 'high_grade_blade_cases': 100, 'wrapper_configured_cases': 500, 'reflected_entry_point_cases': 100, 'graded_mode_cases': 200,
+         'sibling_algebra_cases': 200}
     for o in OPS7:
         f['generic_' + o] = 800
     return f
@@ -59,6 +60,8 @@ def plan(tier, seed):
             U += u(dict(c, opts={'wrapper': w}), 'sparse', 1, count=30, cap=4, perm=0.6, min_size=2)
         for c in ({'p': 2, 'q': 0, 'r': 1}, {'p': 1, 'q': 1, 'r': 1}, {'p': 3, 'q': 0, 'r': 0}, {'p': 1, 'q': 0, 'r': 2}, {'p': 3, 'q': 0, 'r': 1}):
             U += u(dict(c, opts={'graded': True}), 'gradeblocks', 1, count=14, cap=8)
+        # algebras with equal (p, q, r) and different sign tables side by side in one process, on the same key patterns
+        U += workload.sibling_units(gen.sibling_sets(rng, (2, 3, 4), 2), 'sparse', count=12, cap=4)
         nshards = 16
     else:
         for c in gen.sig_orderings(1, 1):
@@ -88,6 +91,7 @@ def plan(tier, seed):
             U += u(dict(c, opts={'wrapper': w}), 'sparse', 1, count=120, cap=4, perm=0.6, min_size=2)
         for c in gen.pqr_all(2, 4):
             U += u(dict(c, opts={'graded': True}), 'gradeblocks', 1, count=30, cap=11)
+        U += workload.sibling_units(gen.sibling_sets(rng, (2, 3, 3, 4, 5), 6), 'sparse', count=30, cap=4)
         nshards = 64
     rng.shuffle(U)
     return [{'units': part} for part in gen.split(U, nshards)]
@@ -95,17 +99,8 @@ def plan(tier, seed):
 
 def run_shard(shard, ctx):
     algs = {}
-    for unit in shard['units']:
-        cfg = unit['cfg']
-        name = gen.cfg_str(cfg)
-        if name not in algs:
-            alg = gen.make_or_skip(ctx, cfg)
-            if alg is None:
-                continue
-            algs[name] = (alg, Iso(alg))
-            ctx.count('algebras')
-        alg, iso = algs[name]
-        for kx0, ky0 in workload.iter_patterns(unit, alg, ctx.rng):
+    for unit, cfg, name, alg, iso, (kx0, ky0) in workload.iter_cases(shard, ctx, algs, Iso):
+        if True:
           # every pattern pair is followed by the opposite pair on the same algebra (a cache entry for (Ky, Kx) must not serve (Kx, Ky))
           for kx, ky in ((kx0, ky0), (ky0, kx0)) if (kx0 != ky0 and ctx.rng.random() < 0.35) else ((kx0, ky0),):
             if ctx.out_of_time():
